@@ -6,6 +6,7 @@ import datetime
 import enum
 import json
 import math
+import operator
 import types
 
 import ipaddress
@@ -510,17 +511,13 @@ class ArrayBase(ParsableBase, MutableSequence, Serializable):
             self._items.append(item)
             self._items_size += self.param.get_item_size(item)
 
-        self._update_items_size(del_item=None, insert_item=None)
+        self._update_items_size()
 
         attr.validate(self)
 
-    def _update_items_size(self, del_item=None, insert_item=None, del_items=(), insert_items=()):
+    def _update_items_size(self, del_items=(), insert_items=()):
         size_diff = 0
 
-        if del_item is not None:
-            size_diff -= self.param.get_item_size(del_item)
-        if insert_item is not None:
-            size_diff += self.param.get_item_size(insert_item)
         for item in del_items:
             size_diff -= self.param.get_item_size(item)
         for item in insert_items:
@@ -548,7 +545,7 @@ class ArrayBase(ParsableBase, MutableSequence, Serializable):
         if isinstance(index, slice):
             self._update_items_size(del_items=self._items[index])
         else:
-            self._update_items_size(del_item=self._items[index])
+            self._update_items_size(del_items=(self._items[index], ))
 
         del self._items[index]
 
@@ -559,14 +556,17 @@ class ArrayBase(ParsableBase, MutableSequence, Serializable):
                 raise ValueError(value)
             self._update_items_size(del_items=self._items[index], insert_items=value)
         else:
-            self._update_items_size(del_item=self._items[index], insert_item=value)
+            self._update_items_size(del_items=(self._items[index], ), insert_items=(value, ))
         self._items[index] = value
 
     def __str__(self):
         return str(self._items)
 
     def insert(self, index, value):
-        self._update_items_size(insert_item=value)
+        # a position the list refuses is refused before the item is booked
+        operator.index(index)
+
+        self._update_items_size(insert_items=(value, ))
 
         self._items.insert(index, value)
 
